@@ -142,10 +142,12 @@ where
     /// Get the permissions for the given address.
     pub fn permissions(&self, address: u64) -> Option<MemoryPermissions> {
         let page_address = address & PAGE_MASK;
+        // a page without permissions of its own (e.g. one created by a store)
+        // does not hide the permissions of the backing
         self.pages
             .get(&page_address)
-            .map(|page| page.permissions().cloned())
-            .unwrap_or_else(|| {
+            .and_then(|page| page.permissions().cloned())
+            .or_else(|| {
                 self.backing()
                     .and_then(|backing| backing.permissions(address))
             })
